@@ -155,6 +155,18 @@ func runC18(c *core.Ctx) {
 		}
 	}
 	c.Set("try_and_increment_counter_histogram", hist)
+	{ // nil versus empty alpha
+		k := vrf.NewKeyFromSeed(seeds[1])
+		a, b := vrf.Prove(k, nil).Bytes(), vrf.Prove(k, []byte{}).Bytes()
+		w, _ := rvrf.Prove(seeds[1], nil)
+		c.Eval(2)
+		if !bytes.Equal(a, b) || !bytes.Equal(a, w[:]) {
+			c.Violate("C18/environment/nil-alpha", "Prove(nil) and Prove(empty) differ or differ from the reference", nil, "", nil)
+		}
+		if ok, _ := vrf.Verify(vrf.PublicKey(k[32:]), nil, a); !ok {
+			c.Violate("C18/environment/nil-alpha", "Verify with nil alpha rejects", nil, "", nil)
+		}
+	}
 	c.Sample(map[string]interface{}{"prove": "seed 00..00, alpha = single byte 0x2a"})
 
 	// ---- Verify / decoding on corrupted inputs ----
